@@ -692,6 +692,14 @@ func (c *ctx) c15ReplayRun() {
 		if err == nil && !bytes.Equal(b, b2) {
 			c.res.Violate("property", "C15/protocol.Message/From/bad-value", "bytes written by MarshalBinary come back as a different (empty) message with a nil error", rp)
 		}
+	case rp.What == "crafted" && t != nil && herr == nil:
+		c.c15JudgeCrafted(t, rp.Corruption, b)
+		obj, errText, pan := c15Restore(t, b)
+		var probs []string
+		if obj != nil && errText == "" && pan == "" {
+			probs = c15Check(t, obj)
+		}
+		fmt.Printf("replay: %s restore from crafted material %q: err=%q panic=%q problems=%v\n", rp.Type, rp.Corruption, errText, pan, probs)
 	case t != nil && herr == nil:
 		c.c15Judge(t, rp.Field, rp.Corruption, b, true)
 		obj, errText, pan := c15Restore(t, b)
